@@ -2,13 +2,14 @@ import BlugeProofs.C01.Reach
 /-! # C01 — batches apply atomically and exactly as the abstract index says
 
 Property theorems only (lemmas: `BlugeProofs/C01/*.lean`; model and specification: `Bluge/Index.lean`).
-`~` below is `List.Perm`; `applyBatch A b = A.filter (id ∉ b.ids) ++ b.docs` is the specification. -/
+`~` below is `List.Perm`; `applyBatch A b = A.filter (id ∉ b.ids) ++ b.docs` is the specification;
+`Root.abs` (the live documents of all segments, in order) is the abstraction function. -/
 namespace Bluge.C01
 open Bluge.Index List
 
 /-- **`introduceSegment` refines `applyBatch`**, for EVERY obsoletes map that is right where it is defined
-(`ObsOK`: stale, partial or empty — the `!ok` recompute branch fills the gaps): the live documents of the new
-root are exactly (as a list, hence as a multiset) the abstract index after the batch. -/
+(`ObsOK`: stale, partial or empty — the `!ok` recompute branch of the code fills the gaps): the live documents of
+the new root are exactly (as a list, hence as a multiset) the abstract index after the batch. -/
 theorem introduceSegment_abs_eq (r : Root) (epoch : Nat) (b : Batch) (sid : Nat) (obs : Obs)
     (hr : r.WF) (ho : ObsOK r b.ids obs) :
     (introduceSegment r epoch b sid obs).abs = applyBatch r.abs b := by
@@ -20,11 +21,11 @@ theorem introduceSegment_abs (r : Root) (epoch : Nat) (b : Batch) (sid : Nat) (o
   rw [introduceSegment_abs_eq r epoch b sid obs hr ho]
 
 /-- the obsoletes map `prepareSegment` computes from ANY root `seen` that agrees with the current root on the
-documents of the segment ids they share (every earlier root of the same history does: `reachable_inv`) is `ObsOK` -/
+documents of the segment ids they share (every root of the same history does: `reachable_inv`) is `ObsOK` -/
 theorem prepare_obsOK (seen r : Root) (ids : List Id) (h : SidConsistent seen r) :
     ObsOK r ids (prepareObs seen ids) := prepareObs_ok ids h
 
-/-- the root produced by the introduction does not depend on which root `prepareSegment` saw -/
+/-- the root produced by the introduction does not depend on which root `prepareSegment` saw (C05 re-uses this) -/
 theorem prepare_stale_irrelevant (seen₁ seen₂ r : Root) (epoch : Nat) (b : Batch) (sid : Nat)
     (h₁ : SidConsistent seen₁ r) (h₂ : SidConsistent seen₂ r) :
     introduceSegment r epoch b sid (prepareObs seen₁ b.ids) = introduceSegment r epoch b sid (prepareObs seen₂ b.ids) := by
@@ -34,113 +35,64 @@ theorem prepare_stale_irrelevant (seen₁ seen₂ r : Root) (epoch : Nat) (b : B
 theorem introducePersist_abs (r : Root) (epoch : Nat) (p : Persisted) (h : PersistWF r p) :
     (introducePersist r epoch p).abs = r.abs := introducePersist_abs_eq epoch h
 
-/-- histories without merge introductions -/
-def NoMerge (evs : List Event) : Prop := ∀ e ∈ evs, e.isMerge = false
-instance (evs : List Event) : Decidable (NoMerge evs) := by unfold NoMerge; exact inferInstance
+/-- **a merge introduction does not change the live documents** (C06 re-uses this): the task is what
+`planSegmentsToMerge`/`mergeSegmentBases` + the plugin's `Merge` build (`MergeTask.plan`: in-memory or file merge,
+segments without live documents recorded as `nil`) from segment snapshots `picked` that are compatible with the
+current root (`MergeCompat`: same documents under the same id, deleted sets only grown, distinct ids — true of the
+snapshots of any earlier root of the history, `merge_compat_of_reachable`). Covers deletes racing with the merge,
+segments dropped from the root meanwhile, and the skipped introduction when everything merged is deleted. -/
+theorem introduceMerge_abs (P : Root) (picked : List SegSnap) (hc : MergeCompat P picked)
+    (fileMerge : Bool) (id epoch : Nat) :
+    (introduceMerge P epoch (MergeTask.plan picked id fileMerge)).abs ~ P.abs :=
+  introduceMerge_plan_abs hc fileMerge id epoch
 
-theorem applied_foldl (evs : List Event) (s : State) :
-    (evs.foldl step s).applied = s.applied ++ batchesOf evs := by
-  induction evs generalizing s with
-  | nil => simp [batchesOf]
-  | cons e t ih =>
-    rw [List.foldl_cons, ih]
-    cases e <;> simp [step, batchesOf]
+/-- every state reachable by batches (each prepared against any root of the history, with any fresh segment id),
+persists and merges (each
+planned against any root of the history, over any of its segments, in-memory or file merge) satisfies the history
+invariants: fresh segment ids, immutable segments keyed by id, growing deleted sets, well-formed bitmaps, and
+the refinement of the abstract index -/
+theorem reachable_inv (evs : List Event) (hwf : HistoryWF State.init evs) : Inv (run evs) :=
+  inv_foldl evs _ Inv.init hwf
 
-theorem inv_foldl (evs : List Event) (s : State) (hs : Inv s) (hwf : HistoryWF s evs) (hnm : NoMerge evs) :
-    Inv (evs.foldl step s) := by
-  induction evs generalizing s with
-  | nil => exact hs
-  | cons e t ih =>
-    rw [List.foldl_cons]
-    have hnm' : NoMerge t := fun x hx => hnm x (List.mem_cons_of_mem _ hx)
-    have he := hnm e List.mem_cons_self
-    unfold HistoryWF at hwf
-    cases e with
-    | batch b k => exact ih _ (hs.step_batch b k) hwf.2 hnm'
-    | persist p => exact ih _ (hs.step_persist hwf.1) hwf.2 hnm'
-    | merge k pick f => simp [Event.isMerge] at he
+theorem merge_compat_of_reachable (evs : List Event) (hwf : HistoryWF State.init evs) (k : Nat) (pick : List Nat) :
+    MergeCompat (run evs).root (((run evs).seen k).segs.filter (fun ss => pick.contains ss.sid)) :=
+  (reachable_inv evs hwf).mergeCompat k pick
 
-/-- every state reachable by batches (each prepared against any earlier root) and persists satisfies the
-history invariants: fresh segment ids, immutable segments keyed by id, growing deleted sets, well-formed bitmaps -/
-theorem reachable_inv (evs : List Event) (hwf : HistoryWF State.init evs) (hnm : NoMerge evs) : Inv (run evs) :=
-  inv_foldl evs _ Inv.init hwf hnm
-
-/-- **refinement over all histories** of batches (any mix and size, empty and delete-only batches, ids re-used,
-each prepared against an arbitrary earlier root) interleaved with persist introductions:
-the live documents of the final root are a permutation of the abstract index.
-`_partial`: merge introductions are excluded (`NoMerge`); they need `introduceMerge_abs` (C06), after which the
-`merge` case of `inv_foldl` is one more line. -/
-theorem C01_refines_partial (evs : List Event) (hwf : HistoryWF State.init evs) (hnm : NoMerge evs) :
+/-- **refinement over all histories**: for every finite sequence of batches (any mix and size, empty and delete-only
+batches, ids re-used, each prepared against an arbitrary — stale — root of the history), interleaved with any
+persist introductions (`HistoryWF`: a re-loaded segment has the documents written) and any merge introductions,
+the live documents of the final root are a permutation of the abstract index `foldl applyBatch []` of the batches
+in introduction order. -/
+theorem C01_refines (evs : List Event) (hwf : HistoryWF State.init evs) :
     (run evs).root.abs ~ absOf (batchesOf evs) := by
-  have h := (reachable_inv evs hwf hnm).abs
+  have h := (reachable_inv evs hwf).abs
   have ha : (run evs).applied = batchesOf evs := by
     unfold run; rw [applied_foldl]; rfl
   rwa [ha] at h
 
-/-- `Snapshot.Count()` (sum of `segment.Count() - deleted.GetCardinality()`) is the number of live documents -/
-theorem root_count_eq (r : Root) (hr : r.WF) : r.count = r.abs.length := by
-  unfold Root.count Root.abs
-  rw [List.length_flatMap]
-  congr 1
-  apply List.map_congr_left
-  intro ss hss
-  exact SegSnap.count_eq_live_length (hr ss hss)
-
-/-- `Reader.Count` agrees with the abstract index -/
-theorem count_eq (evs : List Event) (hwf : HistoryWF State.init evs) (hnm : NoMerge evs) :
+/-- `Reader.Count` (`Snapshot.Count`: sum of `segment.Count() - deleted.GetCardinality()`) agrees with the abstract index -/
+theorem count_eq (evs : List Event) (hwf : HistoryWF State.init evs) :
     (run evs).root.count = (absOf (batchesOf evs)).length := by
-  have hi := reachable_inv evs hwf hnm
-  rw [root_count_eq _ (hi.hist.wf _ List.mem_cons_self)]
-  exact (C01_refines_partial evs hwf hnm).length_eq
+  rw [root_count_eq_abs_length _ ((reachable_inv evs hwf).hist.wf _ List.mem_cons_self)]
+  exact (C01_refines evs hwf).length_eq
 
 /-- lookup by `_id` agrees with the abstract index -/
-theorem lookup_by_id (evs : List Event) (hwf : HistoryWF State.init evs) (hnm : NoMerge evs) (i : Id) :
+theorem lookup_by_id (evs : List Event) (hwf : HistoryWF State.init evs) (i : Id) :
     (run evs).root.lookup i ~ (absOf (batchesOf evs)).filter (fun d => d.id == i) :=
-  (C01_refines_partial evs hwf hnm).filter _
+  (C01_refines evs hwf).filter _
 
-/-- match-all enumerates every document of the abstract index exactly as often as it occurs there, and stored
-fields (`body`) come with it: documents are compared whole -/
-theorem matchAll_enumerates (evs : List Event) (hwf : HistoryWF State.init evs) (hnm : NoMerge evs) (d : Doc) :
+/-- match-all enumerates every document of the abstract index exactly as often as it occurs there, stored fields
+(`body`) included: documents are compared whole -/
+theorem matchAll_enumerates (evs : List Event) (hwf : HistoryWF State.init evs) (d : Doc) :
     (run evs).root.abs.count d = (absOf (batchesOf evs)).count d :=
-  (C01_refines_partial evs hwf hnm).count_eq d
+  (C01_refines evs hwf).count_eq d
 
-/-- a batch that only updates: every document it adds has its id among the ids it names, and it adds no id twice -/
-def UpdateOnly (b : Batch) : Prop := (∀ d ∈ b.docs, d.id ∈ b.ids) ∧ (b.docs.map (·.id)).Nodup
-instance (b : Batch) : Decidable (UpdateOnly b) := by unfold UpdateOnly; exact inferInstance
-
-theorem applyBatch_unique {A : List Doc} {b : Batch} (hA : (A.map (·.id)).Nodup) (hb : UpdateOnly b) :
-    ((applyBatch A b).map (·.id)).Nodup := by
-  unfold applyBatch
-  rw [List.map_append, List.nodup_append]
-  refine ⟨List.Nodup.sublist (List.Sublist.map _ List.filter_sublist) hA, hb.2, ?_⟩
-  intro x hx y hy hxy
-  obtain ⟨d, hd, rfl⟩ := List.mem_map.mp hx
-  obtain ⟨e, he, rfl⟩ := List.mem_map.mp hy
-  have h1 := (List.mem_filter.mp hd).2
-  have h2 := hb.1 e he
-  rw [← hxy] at h2
-  simp at h1
-  exact h1 h2
-
-theorem absOf_unique (bs : List Batch) (h : ∀ b ∈ bs, UpdateOnly b) : ((absOf bs).map (·.id)).Nodup := by
-  unfold absOf
-  suffices H : ∀ (bs : List Batch) (A : List Doc), (A.map (·.id)).Nodup → (∀ b ∈ bs, UpdateOnly b) →
-      ((bs.foldl applyBatch A).map (·.id)).Nodup from H bs [] (by simp) h
-  intro bs
-  induction bs with
-  | nil => intro A hA _; exact hA
-  | cons b t ih =>
-    intro A hA hb
-    rw [List.foldl_cons]
-    exact ih _ (applyBatch_unique hA (hb b List.mem_cons_self)) (fun x hx => hb x (List.mem_cons_of_mem _ hx))
-
-/-- **ids written only through `Update` are unique**: if every batch of the history is `UpdateOnly`
-(adds documents only under ids it names, no id twice in one batch), then in every reachable root every id has at
-most one live document -/
-theorem update_only_unique (evs : List Event) (hwf : HistoryWF State.init evs) (hnm : NoMerge evs)
+/-- **ids written only through `Update` are unique**: if every batch of the history is `UpdateOnly` (adds documents
+only under ids it names, no id twice in one batch), then in every reachable root every id has at most one live document -/
+theorem update_only_unique (evs : List Event) (hwf : HistoryWF State.init evs)
     (hu : ∀ b ∈ batchesOf evs, UpdateOnly b) :
     ((run evs).root.abs.map (·.id)).Nodup ∧ ∀ i, ((run evs).root.lookup i).length ≤ 1 := by
-  have hp := C01_refines_partial evs hwf hnm
+  have hp := C01_refines evs hwf
   have hn : ((run evs).root.abs.map (·.id)).Nodup :=
     ((hp.map (·.id)).nodup_iff).mpr (absOf_unique _ hu)
   refine ⟨hn, fun i => ?_⟩
@@ -159,8 +111,8 @@ def dupBatch : Batch := Batch.ofOps [.update 7 ⟨7, 1⟩, .update 7 ⟨7, 2⟩]
 id twice leaves TWO live documents for that id — in the model of the code and in the abstract index alike
 (refinement holds; "exactly one live document" is what fails). The harness replays it on the real writer. -/
 theorem C01_dup_id_witness :
-    let evs := [Event.batch dupBatch 0]
-    HistoryWF State.init evs ∧ NoMerge evs ∧
+    let evs := [Event.batch dupBatch 0 1]
+    HistoryWF State.init evs ∧
     (∀ b ∈ batchesOf evs, ∀ d ∈ b.docs, d.id ∈ b.ids) ∧
     ((run evs).root.lookup 7).length = 2 ∧ ((absOf (batchesOf evs)).filter (fun d => d.id == 7)).length = 2 := by
   decide
@@ -178,30 +130,42 @@ example :
     (introduceSegment r 2 b 2 obs).segs = [⟨1, [⟨3, 10⟩, ⟨4, 11⟩], [0], false⟩, ⟨2, [⟨3, 12⟩], [], false⟩] := by
   decide
 
-/-- non-vacuity of the history theorems: a three-batch history with a re-inserted id, prepared against stale
-roots, with a persist in between; all premises hold and the final index is what the specification says -/
+/-- non-vacuity of the history theorems: a history with a re-inserted id, batches prepared against stale roots,
+a persist, and a merge planned two roots back whose input is hit by a later delete -/
 example :
-    let evs := [Event.batch (Batch.ofOps [.insert ⟨1, 10⟩, .insert ⟨2, 11⟩]) 0,
+    let evs := [Event.batch (Batch.ofOps [.insert ⟨1, 10⟩, .insert ⟨2, 11⟩]) 0 1,
                 Event.persist [(1, [⟨1, 10⟩, ⟨2, 11⟩])],
-                Event.batch (Batch.ofOps [.delete 1]) 2,
-                Event.batch (Batch.ofOps [.insert ⟨1, 12⟩, .update 2 ⟨2, 13⟩]) 1]
-    HistoryWF State.init evs ∧ NoMerge evs ∧
-    (run evs).root.abs = [⟨1, 12⟩, ⟨2, 13⟩] ∧ absOf (batchesOf evs) = [⟨1, 12⟩, ⟨2, 13⟩] ∧
-    (run evs).root.sids = [3] := by
+                Event.batch (Batch.ofOps [.insert ⟨3, 12⟩]) 1 2,
+                Event.batch (Batch.ofOps [.delete 1]) 2 3,
+                Event.merge 1 [1, 2] false 5,   -- the merge took its id before the next batch did, and comes in later
+                Event.batch (Batch.ofOps [.insert ⟨1, 13⟩, .update 2 ⟨2, 14⟩]) 1 4]
+    HistoryWF State.init evs ∧
+    (run evs).root.abs = [⟨3, 12⟩, ⟨1, 13⟩, ⟨2, 14⟩] ∧ absOf (batchesOf evs) = [⟨3, 12⟩, ⟨1, 13⟩, ⟨2, 14⟩] ∧
+    (run evs).root.sids = [5, 4] := by
   decide
+
+/-- non-vacuity of `MergeCompat`/`introduceMerge_abs`: the snapshots were taken before document 0 of segment 1 was
+deleted and before segment 2 left the root; the merged segment 9 comes in with exactly those two documents deleted -/
+example :
+    let P : Root := ⟨7, [⟨1, [⟨1, 10⟩, ⟨2, 11⟩], [0], true⟩, ⟨3, [⟨5, 30⟩], [], false⟩]⟩
+    let picked : List SegSnap := [⟨1, [⟨1, 10⟩, ⟨2, 11⟩], [], true⟩, ⟨2, [⟨4, 20⟩], [], true⟩]
+    MergeCompat P picked ∧
+    (introduceMerge P 8 (MergeTask.plan picked 9 true)).segs =
+      [⟨3, [⟨5, 30⟩], [], false⟩, ⟨9, [⟨1, 10⟩, ⟨2, 11⟩, ⟨4, 20⟩], [0, 2], true⟩] := by
+  refine ⟨⟨by decide, by decide, by decide, by decide, by decide, by decide⟩, by decide⟩
 
 /-- a delete-only batch that empties a segment: the segment is dropped from the root -/
 example :
-    let evs := [Event.batch (Batch.ofOps [.insert ⟨1, 10⟩]) 0, Event.batch (Batch.ofOps [.insert ⟨2, 11⟩]) 0,
-                Event.batch (Batch.ofOps [.delete 1]) 0]
+    let evs := [Event.batch (Batch.ofOps [.insert ⟨1, 10⟩]) 0 1, Event.batch (Batch.ofOps [.insert ⟨2, 11⟩]) 0 2,
+                Event.batch (Batch.ofOps [.delete 1]) 0 3]
     (run evs).root.segs = [⟨2, [⟨2, 11⟩], [], false⟩] ∧ absOf (batchesOf evs) = [⟨2, 11⟩] := by
   decide
 
 /-- non-vacuity of `update_only_unique`: an update-only history -/
 example :
-    let evs := [Event.batch (Batch.ofOps [.update 1 ⟨1, 10⟩, .update 2 ⟨2, 11⟩]) 0,
-                Event.batch (Batch.ofOps [.update 1 ⟨1, 12⟩, .delete 2]) 1]
-    HistoryWF State.init evs ∧ NoMerge evs ∧ (∀ b ∈ batchesOf evs, UpdateOnly b) ∧
+    let evs := [Event.batch (Batch.ofOps [.update 1 ⟨1, 10⟩, .update 2 ⟨2, 11⟩]) 0 1,
+                Event.batch (Batch.ofOps [.update 1 ⟨1, 12⟩, .delete 2]) 1 2]
+    HistoryWF State.init evs ∧ (∀ b ∈ batchesOf evs, UpdateOnly b) ∧
     (run evs).root.abs = [⟨1, 12⟩] := by
   decide
 
